@@ -10,7 +10,7 @@ namespace Nix.Drive.Store
 open Nix Nix.Proto Nix.Drive Nix.Dump
 
 def sessionOps : List String := ["fopen", "fclose", "freopen", "fflush", "fdrop", "fisopen", "fbytes"]
-def readOnlyOps : List String := ["fld", "getlinkh", "get", "has", "count", "list", "valid", "drop", "idof", "haslink", "getlink", "countlink", "listlink",
+def readOnlyOps : List String := ["xdim", "fld", "getlinkh", "get", "has", "count", "list", "valid", "drop", "idof", "haslink", "getlink", "countlink", "listlink",
   "xcheck", "xlinks", "xfeat", "hdump", "haslinkh", "getf", "find", "dump", "dumpx", "validate"]
 
 def implOk (impl : List String) : Bool := impl.head? == some "ok"
@@ -32,15 +32,15 @@ def relIds (d : Dump) : List (String × Bool) :=
   [("ids_are_wellformed_uuids", ids.all wellFormedUUID && d.all fun r => r.id.length == 36 || r.id.startsWith "!"),
    ("ids_are_pairwise_distinct", nodup ids)]
 
-/-- C12 across dumps: an id keeps denoting the same entity (kind, name, creation time) -/
+/-- C12 across dumps: an id keeps denoting the same entity (kind, name — the creation time can be forced to another value) -/
 def relIdStable (seen : List (String × String)) (d : Dump) : List (String × Bool) :=
   [("id_never_changes", d.all fun r =>
       match seen.find? (·.1 == r.id) with
-      | some (_, sig) => sig == s!"{r.kind} {r.name} {r.created}"
+      | some (_, sig) => sig == s!"{r.kind} {r.name}"
       | none => true)]
 
 def remember (seen : List (String × String)) (d : Dump) : List (String × String) :=
-  d.foldl (fun acc r => if r.id.length == 36 && !(acc.any (·.1 == r.id)) then (r.id, s!"{r.kind} {r.name} {r.created}") :: acc else acc) seen
+  d.foldl (fun acc r => if r.id.length == 36 && !(acc.any (·.1 == r.id)) then (r.id, s!"{r.kind} {r.name}") :: acc else acc) seen
 
 /-- remove / blank the deleted ids inside a field value, the way a holder must stop exposing them -/
 def scrub (deleted : List String) (v : String) : String :=
@@ -254,6 +254,7 @@ def handleImpl (ds : DState) (op : String) (args impl : List String) : Option (D
     let tag := s!"{op}.{(args.head?).getD ""}.{if ok then (impl[1]?).getD "ok" else (impl[1]?).getD "err"}{if foreign then ".foreign" else ""}"
     let st := { (note st) with lastDeleted := if impl == ["ok", "1"] then victim else none }
     fin st (judge tag impl impl (if foreign && ok then [("delete_by_handle_of_another_parents_child_deletes_nothing", impl == ["ok", "0"])] else []))
+  | "fm_ent" => fin (note st) (.ok s!"fm_ent.{(args[1]?).getD ""}.{if ok then "ok" else (impl[1]?).getD "err"}")
   | "link" | "unlink" | "single" | "set" | "setlinks" =>
     -- C03 / C08: a link by ENTITY that is accepted links that very entity (not another one of the same name): remembered here, judged
     -- at the next dump
@@ -282,6 +283,10 @@ def handleImpl (ds : DState) (op : String) (args impl : List String) : Option (D
           impl == ["ok", if remark == "foreign" then "0" else "1"])])
     | _ => fin st (.malformed "haslinkh"))
   | "xfeat" => fin st (judge "xfeat" impl impl (relXfeat impl))
+  -- C02: a dimension handle kept across operations shows what a handle fetched now shows (nothing is remembered in a handle)
+  | "xdim" =>
+    fin st (judge s!"xdim.{(impl[1]?).getD "err"}" impl impl
+      (if ok && impl[1]? != some "held" then [("kept_dimension_handle_shows_what_a_fresh_one_shows", impl[1]? == some "same")] else []))
   | "hdump" =>
     match Dump.parse impl, st.lastDump with
     | some held, some tree =>
